@@ -14,7 +14,7 @@ const K = M.K;
 
 function opsFor(alpha, g) {
   // returns the list of ops (templates) usable by goroutine g
-  return alpha.filter(o => !(o.k === K.goexit && g === 0));
+  return alpha.filter(o => !((o.k === K.goexit || o.k === K.goexitd) && g === 0));
 }
 
 function seqs(ops, maxLen) {
@@ -35,7 +35,7 @@ const R = c => ({ send: false, c }), S = c => ({ send: true, c });
 function alphabet(name) {
   const S0 = { k: K.send, c: 0 }, R0 = { k: K.recv, c: 0 }, Q0 = { k: K.recv2, c: 0 }, C0 = { k: K.close, c: 0 }, G0 = { k: K.range, c: 0 }, L0 = { k: K.len, c: 0 };
   const S1 = { k: K.send, c: 1 }, R1 = { k: K.recv, c: 1 }, Q1 = { k: K.recv2, c: 1 }, C1 = { k: K.close, c: 1 };
-  const Y = { k: K.gosched }, X = { k: K.goexit }, N = { k: K.numg };
+  const Y = { k: K.gosched }, X = { k: K.goexit }, N = { k: K.numg }, D0 = { k: K.goexitd, c: 0 };
   switch (name) {
     case 'one-core':
       return [S0, R0, Q0, C0, G0, sel([R(0)]), sel([R(0)], 1), sel([S(0)]), sel([S(0)], 1), sel([R(0), S(0)]), sel([R(0), S(0)], 1), Y];
@@ -46,6 +46,9 @@ function alphabet(name) {
     case 'dup-select':
       // one select statement holding the same channel twice in the same direction
       return [S0, S1, R0, R1, C0, C1, sel([R(0), R(0), R(1)]), sel([R(0), R(0), R(1)], 1), sel([S(0), S(0), R(1)]), sel([R(0), R(0)]), sel([S(1), S(1), R(0)]), Y];
+    case 'goexit-defer':
+      // runtime.Goexit() whose deferred call blocks on a channel, observed through NumGoroutine and the deadlock report
+      return [S0, R0, C0, N, Y, D0, X];
     case 'two-quick':
       return [S0, S1, R0, R1, C0, sel([R(0), R(1)]), sel([R(0), R(1)], 1), sel([S(0), S(1)]), sel([S(0), S(1)], 1), sel([R(0), S(1)]), sel([R(0), S(1)], 1)];
     case 'wake-main':
@@ -69,6 +72,7 @@ function families(tier) {
     { name: 'F6', alpha: 'one-small', lens: [2, 2], caps: [[0]], expose: true },
     // close/send with several waiters of different kinds parked on one channel, main waiting for the result
     { name: 'F8', alpha: 'dup-select', lens: [2, 2], caps: [[0, 0], [1, 0]] },
+    { name: 'F9', alpha: 'goexit-defer', lens: [3, 2], caps: [[0], [1]] },
     { name: 'F7', alphas: ['wake-main', 'wake-g', 'wake-g'], lens: [3, 1, 2], caps: [[0, 0]] },
   ];
   if (tier !== 'thorough') return q;
@@ -80,6 +84,7 @@ function families(tier) {
     { name: 'T5', alpha: 'one-core', lens: [2, 3], caps: [[0], [1]] },
     { name: 'T6', alpha: 'two-quick', lens: [2, 2, 1], caps: [[0, 0], [0, 1]] },
     { name: 'T7', alphas: ['wake-main', 'wake-g', 'wake-g'], lens: [3, 2, 2], caps: [[0, 0], [1, 0]] },
+    { name: 'T8', alpha: 'goexit-defer', lens: [3, 2, 1], caps: [[0], [1]] },
   ]);
 }
 
@@ -116,6 +121,7 @@ function opName(o) {
     case K.gosched: return 'Y';
     case K.goexit: return 'X';
     case K.numg: return 'N';
+    case K.goexitd: return 'D' + o.c;
     case K.spawn: return 'go' + o.v;
     case K.select: return 'sel[' + o.cases.map(c => (c.send ? 'S' : 'R') + c.c).join('') + (o.def ? 'd' : '') + ']';
   }
